@@ -65,6 +65,7 @@ type Reader struct {
 	ref       []byte
 	buf       *bytes.Reader
 	skipDepth int
+	headLen   int // bytes taken by the head readHead returned last
 }
 
 // maxSkipDepth bounds the nesting of containers inside a skipped (unknown) field, so that a
@@ -369,6 +370,7 @@ func (b *Reader) readHead() (ty, tag byte, err error) {
 	if err != nil {
 		return
 	}
+	b.headLen = 1
 	ty = data & 0x0f
 	tag = (data & 0xf0) >> 4
 	if tag == 15 {
@@ -376,6 +378,7 @@ func (b *Reader) readHead() (ty, tag byte, err error) {
 		if err != nil {
 			return
 		}
+		b.headLen = 2
 		tag = data
 	}
 	return
@@ -384,8 +387,9 @@ func (b *Reader) readHead() (ty, tag byte, err error) {
 // unreadHead 回退一个head byte， curTag为当前读到的tag信息，当tag超过4位时则回退两个head byte
 // unreadHead put back the current head byte.
 func (b *Reader) unreadHead(curTag byte) {
+	// a two-byte head may carry a tag below 15, so go by what readHead consumed, not by the tag
 	_ = b.buf.UnreadByte()
-	if curTag >= 15 {
+	if b.headLen == 2 {
 		_ = b.buf.UnreadByte()
 	}
 }
